@@ -1108,6 +1108,8 @@ pub(crate) fn tree_decompose_and_plan(
 ) -> Plan {
     macro_rules! fast_path {
         () => {{
+            #[cfg(egglog_verif)]
+            egglog_concurrency::verif::point(40);
             let (header, instrs) = plan_stages(&ctx, strat);
             let stages = JoinStages {
                 instrs: Arc::new(instrs),
@@ -1171,6 +1173,8 @@ pub(crate) fn tree_decompose_and_plan(
         .collect::<Vec<_>>();
     let result_block = loop_lifting(result_block);
 
+    #[cfg(egglog_verif)]
+    egglog_concurrency::verif::point(41);
     Plan::DecomposedPlan(DecomposedPlan {
         atoms: Arc::new(ctx.atoms),
         header,
